@@ -10,6 +10,7 @@ set -u
 export GOFLAGS=-mod=mod GOPROXY=off GOSUMDB=off GOTOOLCHAIN=local
 V=${VERIF_DIR:-/verif}
 R=${VERIF_REPO:-/repo}
+ID=${1:-}
 T=$(mktemp -d "${TMPDIR:-/var/tmp}/verif-XXXXXX") || exit 3
 trap 'rm -rf "$T"' EXIT INT TERM
 cd "$V/zv" || exit 3
@@ -19,10 +20,25 @@ if [ "$R" != /repo ]; then
   MODFLAG="-modfile=$T/go.mod"
 fi
 (go build -o "$T/overlaygen" ./cmd/overlaygen && "$T/overlaygen" -repo "$R" -verif "$V" -out "$T" >"$T/overlaygen.log" 2>&1) || { cat "$T/overlaygen.log" 2>/dev/null; echo "HARNESS-ERROR: overlay generation failed"; exit 3; }
-if ! go build $MODFLAG -tags verif -overlay "$T/overlay.json" -o "$T/verifcheck" ./cmd/verifcheck >"$T/build.log" 2>&1; then
-  cat "$T/build.log"
-  echo "HARNESS-ERROR: build of the checker against $R failed"
-  exit 3
+# first choice: with the component export hook (tag verife3); if the internal API it wraps changed, without it
+TAGS="verif verife3"
+if ! go build $MODFLAG -tags "$TAGS" -overlay "$T/overlay.json" -o "$T/verifcheck" ./cmd/verifcheck >"$T/build.log" 2>&1; then
+  TAGS="verif"
+  if ! go build $MODFLAG -tags "$TAGS" -overlay "$T/overlay.json" -o "$T/verifcheck" ./cmd/verifcheck >"$T/build2.log" 2>&1; then
+    cat "$T/build.log" "$T/build2.log"
+    echo "HARNESS-ERROR: build of the checker against $R failed"
+    exit 3
+  fi
+  echo "note: component export hook does not compile against this tree; component (E3) phases are unavailable"
 fi
+case "$ID" in
+  C08|C06)
+    # the same checker with the race detector (scheduler hand-offs invisible to it)
+    if go build $MODFLAG -race -gcflags=all=-d=checkptr=0 -tags "$TAGS" -overlay "$T/overlay.json" -o "$T/verifcheck-race" ./cmd/verifcheck >"$T/build-race.log" 2>&1; then
+      export VERIF_RACE_BIN="$T/verifcheck-race"
+    else
+      cat "$T/build-race.log"; echo "note: race-detector build failed; race phases will be skipped"
+    fi ;;
+esac
 VERIF_DIR="$V" "$T/verifcheck" "$@"
 exit $?
